@@ -246,6 +246,16 @@ class Analyzer(ast.NodeVisitor):
             self.val(fn)
             name = '?'
         self.f.calls.append((node.lineno, name, argv, recv, kwv, node))
+        # library calls that are told to work IN PLACE (scipy.linalg overwrite_* flags, NumPy out=): the named argument is written
+        for k in node.keywords:
+            if k.arg and k.arg.startswith('overwrite') and not (isinstance(k.value, ast.Constant) and k.value.value in (False, None, 0)):
+                idx = 1 if k.arg == 'overwrite_b' else 0
+                if idx < len(node.args) and not isinstance(node.args[idx], ast.Starred):
+                    v = argv[idx]
+                    self.site(node.lineno, f"call {name}({k.arg}=True)", node.args[idx], v.src if v.kind == 'view' else v)
+            if k.arg == 'out' and not (isinstance(k.value, ast.Constant) and k.value.value is None):
+                v = kwv['out']
+                self.site(node.lineno, f"call {name}(out=...)", k.value, v.src if v.kind == 'view' else v)
         # mutation through a method call on the receiver
         if recv is not None:
             mut = name in MUTATORS or (name.endswith('_') and not name.endswith('__') and len(name) > 1)
